@@ -21,6 +21,7 @@ class BMC:
         self.after = [bool(self.opts.get("after_all", {}).get(t)) for t in range(self.T)]
         self.por = self.opts.get("por", True)
         self.asserts = []
+        self._subcache = {}; self._rescache = {}; self._keep = []
         self.build()
 
     def add(self, *cs):
@@ -30,7 +31,12 @@ class BMC:
     def at_step(self, t, e, k):
         if isinstance(e, z3.ExprRef):
             subs = self.subs[t][k]
-            return z3.substitute(e, subs) if subs else e
+            if not subs or z3.is_const(e) and e.decl().kind() != z3.Z3_OP_UNINTERPRETED: return e
+            key = (t, e.get_id(), k)
+            c = self._subcache.get(key)
+            if c is None:
+                c = z3.substitute(e, subs); self._subcache[key] = c; self._keep.append(e)
+            return c
         return e
 
     def val_at(self, t, v, k):
@@ -46,9 +52,12 @@ class BMC:
         nodes = self.G[t].nodes
         n = nodes[nid]
         if n.kind != "branch": return z3.BitVecVal(nid, self.pcw[t])
+        ck = (t, nid, k)
+        if ck in self._rescache: return self._rescache[ck]
         e = z3.BitVecVal((1 << self.pcw[t]) - 1, self.pcw[t])      # 'nowhere' (infeasible)
         for c, ch in reversed(n.branches):
             e = z3.If(self.at_step(t, c, k), self.resolve(t, ch, k), e)
+        self._rescache[ck] = e
         return e
 
     def is_kind(self, t, k, kind):
@@ -332,10 +341,8 @@ class BMC:
             path2 = os.path.join(workdir, name + "-plain.cnf")
             info2 = self.to_cnf(extra, path2, plain=True)
             names = info2.pop("names")
-            try:
-                p = subprocess.run(["kissat", "-q", path2], stdout=subprocess.PIPE, stderr=subprocess.STDOUT, text=True, timeout=timeout_s)
-                out = p.stdout
-            except subprocess.TimeoutExpired:
+            out = self.race(path2, timeout_s)
+            if out is None:
                 return dict(info, verdict="unknown", solver_s=time.time() - t0, why="kissat timeout on the decodable re-encoding")
             if "s SATISFIABLE" not in out:
                 return dict(info, verdict="unknown", solver_s=time.time() - t0, why="reduced and plain encodings disagree (sat vs %s)" % out[-60:])
@@ -355,19 +362,24 @@ class BMC:
         """portfolio of two kissat configurations on the same CNF; the first verdict wins"""
         cfgs = [["kissat", "-q", path], ["kissat", "-q", "--unsat", path]]
         if os.environ.get("VERIF_MIR_PORTFOLIO", "1") == "0": cfgs = cfgs[:1]
-        procs = [subprocess.Popen(c, stdout=subprocess.PIPE, stderr=subprocess.STDOUT, text=True) for c in cfgs]
+        # (stdout goes to files: a satisfying assignment is larger than a pipe buffer, a piped kissat would block forever)
+        outs = [open("%s.out%d" % (path, i), "w+") for i in range(len(cfgs))]
+        procs = [subprocess.Popen(c, stdout=outs[i], stderr=subprocess.STDOUT, text=True) for i, c in enumerate(cfgs)]
         t0 = time.time(); out = None
         try:
             while time.time() - t0 < timeout_s:
-                for p in procs:
+                for i, p in enumerate(procs):
                     if p.poll() is not None:
-                        o = p.stdout.read()
+                        outs[i].flush(); outs[i].seek(0); o = outs[i].read()
                         if "s UNSATISFIABLE" in o or "s SATISFIABLE" in o: out = o; break
                 if out is not None or all(p.poll() is not None for p in procs): break
                 time.sleep(0.2)
         finally:
             for p in procs:
                 if p.poll() is None: p.kill()
+            for f in outs:
+                try: f.close(); os.remove(f.name)
+                except Exception: pass
         return out
 
     def model_for(self, extra, model_bits, timeout_ms=120000):
